@@ -57,6 +57,9 @@ func main() {
 	if id == "selftest" {
 		os.Exit(props.SelfTest(o))
 	}
+	if id == "C13" && os.Getenv("VERIF_C13_CHILD") == "" {
+		os.Exit(props.C13Supervise(o, os.Args[1:]))
+	}
 	sc := props.Registry()[id]
 	if sc == nil {
 		fmt.Fprintf(os.Stderr, "unknown or not-applicable property %q\n", id)
